@@ -306,6 +306,46 @@ example : centroid ([vec3 (0 : ℝ) 0 0, vec3 1 1 1].map (fun p => vadd p
 /-- the quaternion `(1,1,0,0)/√2` is the rotation by 90° about `x` -/
 example : quatMat (1 : ℝ) 1 0 0 = mat3 (vec3 1 0 0) (vec3 0 0 (-1)) (vec3 0 1 0) := by
   funext i j; fin_cases i <;> fin_cases j <;> simp [quatMat] <;> norm_num
+/-! ## the bounds survive `DisplacementMove`'s retry loop -/
+
+/-- **moveLoop_mem**: whatever the verdicts of `check_move` and however many attempts are vetoed, the displacement the
+    atoms end up with is the translation of ONE attempt (never an accumulation of several) … -/
+theorem moveLoop_mem {α : Type} (k : ℕ) (ts : List (List (Vec α))) (cs : List Bool) (d : List (Vec α))
+    (h : moveLoop k ts cs = some d) : d ∈ ts := by
+  induction k generalizing ts cs with
+  | zero => simp [moveLoop] at h
+  | succ k ih =>
+    cases ts with
+    | nil => simp [moveLoop] at h
+    | cons t ts =>
+      cases cs with
+      | nil => simp [moveLoop] at h
+      | cons c cs =>
+        simp only [moveLoop] at h
+        split at h
+        · cases h; exact List.mem_cons_self
+        · exact List.mem_cons_of_mem _ (ih ts cs h)
+
+/-- … hence any bound every single proposal satisfies (`ball_norm`, `sphere_norm`, `box_bounds`, rigidity, …) holds for
+    the displacement a `DisplacementMove` finally applies -/
+theorem moveLoop_bound {α : Type} (P : List (Vec α) → Prop) (k : ℕ) (ts : List (List (Vec α))) (cs : List Bool)
+    (hP : ∀ t ∈ ts, P t) (d : List (Vec α)) (h : moveLoop k ts cs = some d) : P d :=
+  hP d (moveLoop_mem k ts cs d h)
+
+/-- instance: a `Ball` move after any number of vetoed attempts displaces by at most the step size -/
+theorem ball_move_norm (s : ℝ) (hs : 0 ≤ s) (k : ℕ) (draws : List (ℝ × ℝ × ℝ)) (cs : List Bool)
+    (hd : ∀ u ∈ draws, (0 ≤ u.1 ∧ u.1 < 1) ∧ (0 ≤ u.2.2 ∧ u.2.2 < 1)) (d : List (Vec ℝ))
+    (h : moveLoop k (draws.map (fun u => [ball s u.1 u.2.1 u.2.2])) cs = some d) :
+    ∃ v, d = [v] ∧ norm v ≤ s := by
+  have hm := moveLoop_mem k _ cs d h
+  obtain ⟨u, hu, rfl⟩ := List.mem_map.mp hm
+  exact ⟨_, rfl, (ball_norm s u.1 u.2.1 u.2.2 hs (hd u hu).1 (hd u hu).2).2.1⟩
+
+example : moveLoop 3 [[vec3 (1 : ℝ) 0 0], [vec3 0 2 0], [vec3 0 0 3]] [false, true, true] = some [vec3 0 2 0] := by
+  simp [moveLoop]
+example : moveLoop 2 [[vec3 (1 : ℝ) 0 0], [vec3 0 2 0], [vec3 0 0 3]] [false, false, true] = none := by
+  simp [moveLoop]
+
 example : (Matrix.of (quatMat (1 : ℝ) 1 0 0)).det = 1 := (quat_rotation 1 1 0 0 (by norm_num)).2
 example : com (moveGroup [((1 : ℝ), vec3 0 0 0), (2, vec3 1 0 0), (16, vec3 0 1 2)]
       (rotation [((1 : ℝ), vec3 0 0 0), (2, vec3 1 0 0), (16, vec3 0 1 2)] 1 2 3 4))
